@@ -20,6 +20,7 @@ type GenCfg struct {
 	DisjointValue bool // value types declared disjointly by two services (accepted by the merger)
 	OddIDs        bool // ids containing ':' or '#'
 	Mutations     bool
+	Subscriptions bool // a Subscription root type (one or two fields, each owned by one service)
 	BigLists      bool
 	RichArgs      bool            // enum, list and input-object arguments
 	FragBase      int             // first number of generated fragment names (several operations in one document)
@@ -294,6 +295,22 @@ func Gen(r *rand.Rand, cfg GenCfg, id int) *World {
 			g.own["Mutation"][name] = owner
 		}
 	}
+	if cfg.Subscriptions {
+		w.Types["Subscription"] = &TypeDecl{Kind: "OBJECT", Fields: map[string]*FieldDecl{}}
+		g.own["Subscription"] = map[string]int{}
+		ns := 1 + g.pick(2)
+		for i := 0; i < ns; i++ {
+			name := fmt.Sprintf("s%d", i)
+			owner := g.pick(nsvc)
+			fd := &FieldDecl{Type: fieldType(true, owner)}
+			if g.chance(0.3) {
+				fd.Args = g.genArgs()
+			}
+			w.Types["Subscription"].Fields[name] = fd
+			w.Types["Subscription"].Order = append(w.Types["Subscription"].Order, name)
+			g.own["Subscription"][name] = owner
+		}
+	}
 	// service declarations: owned fields, then everything reachable from them
 	for t, fs := range g.own {
 		for _, f := range w.Types[t].Order {
@@ -337,7 +354,7 @@ func Gen(r *rand.Rand, cfg GenCfg, id int) *World {
 			w.Ents[id] = e
 		}
 	}
-	for _, root := range []string{"Query", "Mutation"} {
+	for _, root := range []string{"Query", "Mutation", "Subscription"} {
 		td := w.Types[root]
 		if td == nil {
 			continue
@@ -354,6 +371,21 @@ func Gen(r *rand.Rand, cfg GenCfg, id int) *World {
 	}
 	sort.Strings(w.Tags)
 	return w
+}
+
+// GenEventVal generates the value one event of subscription field `field` carries (the value of the
+// root field for that event), over the entities of w.
+func GenEventVal(r *rand.Rand, w *World, cfg GenCfg, field string) Val {
+	g := &gen{r: r, cfg: cfg, w: w, ids: map[string][]string{}, tag: map[string]bool{}}
+	var ids []string
+	for id := range w.Ents {
+		ids = append(ids, id)
+	}
+	sort.Strings(ids)
+	for _, id := range ids {
+		g.ids[w.Ents[id].Type] = append(g.ids[w.Ents[id].Type], id)
+	}
+	return g.genFieldVal(w.Types["Subscription"].Fields[field], 0)
 }
 
 func min(a, b int) int {
@@ -547,6 +579,9 @@ func GenOp(r *rand.Rand, w *World, cfg GenCfg, kind string) *Op {
 	n := 1 + g.pick(3)
 	if kind == "mutation" {
 		n = 1 + g.pick(2)
+	}
+	if kind == "subscription" {
+		n = 1
 	}
 	perm := g.r.Perm(len(td.Order))
 	for i := 0; i < n && i < len(perm); i++ {
